@@ -28,30 +28,21 @@ Fixpoint hv_of_list (l : list (N * option N)) : heapview :=
            | (q, s) :: r => if p =? q then s else hv_of_list r p
            end.
 
-(* debug = the harness was built with debug assertions: a failing debug_assert! in an
-   unchecked accessor is observed as a panic *)
+(* debug = the harness was built with debug assertions; since 7e82908 no opcode of this model
+   contains a debug_assert!, so both profiles must give the same observation (a panic never
+   matches) *)
 Definition vmop_obs (debug : bool) (hv : heapview) (q : vq) : vobs :=
   match q with
   | QBin op a b =>
-      match binop_sem op with
-      | Some s => if debug && negb (binsem_asserts s a b) then OP else obs_of_res (run_binsem hv s a b)
-      | None => OX
-      end
+      match vm_binop hv op a b with Some r => obs_of_res r | None => OX end
   | QUn op a =>
-      match vm_unop op a with
-      | Some r => if debug && negb (unop_asserts op a) then OP else obs_of_res r
-      | None => OX
-      end
+      match vm_unop op a with Some r => obs_of_res r | None => OX end
   | QImm op a c =>
-      match vm_immop op a c with
-      | Some r => if debug && negb (is_int a) then OP else obs_of_res r
-      | None => OX
-      end
+      match vm_immop hv op a c with Some r => obs_of_res r | None => OX end
   | QFor incl i e s =>
-      if debug && negb (loop3_asserts i e s) then OP
-      else let r := forloop_i incl i e s in OL (fst r) (snd r)
+      match forloop_i incl i e s with Some r => OL (fst r) (snd r) | None => OE 0 end
   | QWhile i l =>
-      if debug && negb (ii_asserts i l) then OP else OT (while_loop_lt i l)
+      match while_loop_lt i l with Some t => OT t | None => OE 0 end
   end.
 
 Definition vobs_eqb (x y : vobs) : bool :=
